@@ -105,6 +105,9 @@ func renderResult(code *encoder.QRCode, width, height, quietZone int) (*gozxing.
 	inputHeight := input.GetHeight()
 	qrWidth := inputWidth + (quietZone * 2)
 	qrHeight := inputHeight + (quietZone * 2)
+	if qrWidth < inputWidth || qrHeight < inputHeight {
+		return nil, gozxing.NewWriterException("IllegalArgumentException: margin too large: %v", quietZone)
+	}
 	outputWidth := qrWidth
 	if outputWidth < width {
 		outputWidth = width
